@@ -499,7 +499,7 @@ func (v *Verifier) generate(bc *BoundContract) *FuncResult {
 					c.unsup = append(c.unsup, fmt.Sprintf("%s: ensures: %v", cl.Pos, err))
 					continue
 				}
-				c.addObl(f, &Obligation{Label: cl.Label, Pending: cl.Pending, Kind: "ensures", Site: site, Clause: cl.Text, Pos: cl.Pos, Guard: g, Goal: t})
+				c.addObl(f, &Obligation{Label: cl.Label, Pending: cl.Pending, Kind: "ensures", Site: site, Clause: cl.Text, Pos: cl.Pos, Guard: g, Goal: t, Where: f.posShort(ret.Pos())})
 			}
 			v.frameObligation(c, f, bc, s, g, site, env)
 		}
